@@ -6,7 +6,7 @@ from .. import cache_drv as D
 from .. import cache_gen as G
 
 PROP = 'C05'
-READY = False
+READY = True
 PROPS_MODULE = 'C05'
 MODEL_TARGETS = ['theories/Case_C05.vo']
 HEADER = G.HEADER.format(case_mod='Aiuti.Case_C05')
@@ -20,8 +20,20 @@ EXHAUSTIVE_NOTE = G.EXHAUSTIVE_NOTE
 ASSUMPTIONS = G.ASSUMPTIONS
 TRUSTED = G.TRUSTED
 ALLOWED_AXIOMS = []
-LEVEL_TEXT = 'in progress'
-LEVEL_NOTE = 'in progress'
+LEVEL_TEXT = ('proof (partial): no_lost_wakeup, owner_can_finish, prompt, rescue_within_60, no_deadlock proved for all event '
+              'lists accepted by the model Cache.step (invariants CacheInv.Inv + CacheLive.LInv); termination under fair '
+              'scheduling is reduced to these and the last inference is left on paper; model tied to the code by '
+              'differential correspondence, promptness / rescue / no-hang decided on every observed trace by ok_C05')
+LEVEL_NOTE = ('Proved (closed under the global context): a waiter never waits for an event nobody will set; the owner\'s path '
+              'to its finally block waits only for the lock and the user computation and that block sets the event; once the '
+              'event is set every waiter\'s resume step is enabled and the clock cannot move first (same virtual tick, not '
+              '+60 s); a wait lasts at most 61440 ticks, the clock cannot jump over the deadline, the time-out step is enabled '
+              'and a caller that then finds a dead computing loop takes the key over; while a call on a live loop is unfinished '
+              'some non-life-cycle step is enabled.  NOT formalised: "a fair scheduler eventually takes a step that stays '
+              'enabled" (so "enabled" becomes "eventually happens"), the property\'s assumption that each invocation ends or '
+              'is cancelled (IEnd is an environment event), retry_measure (no ghost retry counter; spinning of the real code is '
+              'caught by the step bound of the harness), and soundness of the monitor ok_C05 w.r.t. the model (the monitor is '
+              'evaluated on every observed trace; 0 rejections on model-accepted traces in all runs).')
 TECHNIQUE = G.TECHNIQUE
 
 corpus = G.corpus
